@@ -6,7 +6,7 @@
      3. multiplier, bin ratio and RelativeAccuracy() factor from gamma
      4. Min/MaxIndexableValue        5. NewLogarithmicMappingWithGamma
      6. NewLogarithmicMapping (a)    7. premises of Sketch/BridgeProofs, C01 end to end
-     8. satisfiability: a correctly rounded oracle *)
+     8. satisfiability: a correctly rounded oracle        9. summaries        10. bin ratio *)
 From Coq Require Import Bool NArith ZArith QArith Qcanon Qcabs Qreals Reals Lra Lia Psatz.
 From Flocq Require Import Core.Core Relative IEEE754.BinarySingleNaN IEEE754.Binary IEEE754.Bits.
 From SK Require Import Base.Prelude Base.F64 Base.F64Proofs Mapping.Glue Mapping.GlueProofs Mapping.GlueAccuracy
@@ -1717,3 +1717,71 @@ Proof.
   unfold eps_a in H. replace (2 * (1 + 6) * Rabs (ln (BR v)) + 12 * 1 + 73) with (14 * Rabs (ln (BR v)) + 85) in H by ring.
   exact H.
 Qed.
+
+(* ------------------------------------------------------------------ *)
+(* 10. bin ratio of a logarithmic mapping (any index whose bounds are in the range of math.Exp) *)
+(* ------------------------------------------------------------------ *)
+Section BinRatioLog.
+Variable L : libm.
+Variable k : R.
+Hypothesis HL : logm_ok L k.
+Variable m : gmap.
+Hypothesis Hm : log_reasonable m.
+
+Lemma exp_range_abs (j : Z) : exp_range m j -> Rabs (BR (lower_arg m j)) <= 710.
+Proof.
+  intros (R1 & R2). apply Rabs_le. split; [lra|].
+  remember (BR (lower_arg m j)) as t.
+  pose proof (pow2_pos 1023) as Pp.
+  assert (H : t <= ln (pow2 1023 * (3 / 2))).
+  { rewrite <- (ln_exp t). apply ln_le_mono; [apply exp_pos|exact R2]. }
+  rewrite ln_mult, ln_pow2 in H by lra.
+  pose proof (ln_1p_le (/ 2) ltac:(lra)) as H1. replace (1 + / 2) with (3 / 2) in H1 by lra.
+  pose proof ln2_enclosure as (_ & H2). unfold ln2_hi in H2.
+  replace (IZR 1023) with 1023 in H by reflexivity. lra.
+Qed.
+
+Theorem lg_bin_ratio (j : Z) : (Z.abs j < 2 ^ 53)%Z -> exp_range m j -> exp_range m (j + 1) ->
+  BR (gm_lower L m (j + 1))
+    <= BR (gm_lower L m j) * exp (1 / BR (gm_mult m)) * (1 + (6 * k + 2860) * u53).
+Proof.
+  intros Hj Rj Rj1.
+  destruct (lg_lower_arg_err m Hm j ltac:(lia)) as (_ & Ej).
+  destruct (lg_lower_arg_err m Hm (j + 1) ltac:(lia)) as (_ & Ej1).
+  destruct (lg_lower_val L k HL m Hm j ltac:(lia) Rj) as (_ & Lo & _).
+  destruct (lg_lower_val L k HL m Hm (j + 1) ltac:(lia) Rj1) as (_ & _ & Up).
+  pose proof (exp_range_abs j Rj) as Bt. pose proof (exp_range_abs (j + 1) Rj1) as Bt1.
+  pose proof (kappa_small L k HL) as Hk.
+  assert (Etj : tau m (j + 1) = tau m j + 1 / BR (gm_mult m)).
+  { destruct Hm as (_ & _ & _ & BM & _). unfold tau. rewrite plus_IZR. field. lra. }
+  rewrite Etj in Ej1.
+  remember (BR (lower_arg m j)) as t. remember (BR (lower_arg m (j + 1))) as t1.
+  remember (tau m j) as ta. remember (1 / BR (gm_mult m)) as iM.
+  set (lo := BR (gm_lower L m j)) in *. set (lo1 := BR (gm_lower L m (j + 1))) in *.
+  assert (Ba : Rabs ta <= 711).
+  { assert (Rabs ta <= Rabs t + Rabs (t - ta)).
+    { replace ta with (t - (t - ta)) at 1 by ring. apply Rle_trans with (1 := Rabs_triang _ _).
+      rewrite Rabs_Ropp. lra. }
+    pose proof (Rabs_pos ta). unfold u53, u100 in *. lra. }
+  assert (Ba1 : Rabs (ta + iM) <= 711).
+  { assert (Rabs (ta + iM) <= Rabs t1 + Rabs (t1 - (ta + iM))).
+    { replace (ta + iM) with (t1 - (t1 - (ta + iM))) at 1 by ring. apply Rle_trans with (1 := Rabs_triang _ _).
+      rewrite Rabs_Ropp. lra. }
+    pose proof (Rabs_pos (ta + iM)). unfold u53, u100 in *. lra. }
+  set (X := 2845 * u53).
+  assert (HX : 0 <= X <= / 68719476736) by (unfold X, u53; lra).
+  assert (A : t1 <= t + iM + X).
+  { apply Rabs_le_inv in Ej, Ej1. unfold X, u53, u100 in *. lra. }
+  pose proof (core_dn t1 t iM X (k * u53) lo A HX Hk Lo) as H.
+  pose proof (exp_pos t1) as P1. pose proof (exp_pos iM) as PM.
+  assert (Plo : 0 < lo).
+  { apply Rlt_le_trans with (2 := Lo). apply Rmult_lt_0_compat; [apply exp_pos|lra]. }
+  apply Rle_trans with (1 := Up).
+  apply Rle_trans with (lo * exp iM * (1 + (X + 3 * (k * u53) + u53)) * (1 + 3 * (k * u53))).
+  - apply Rmult_le_compat_r; lra.
+  - rewrite Rmult_assoc. apply Rmult_le_compat_l; [apply Rmult_le_pos; lra|].
+    replace ((6 * k + 2860) * u53) with (6 * (k * u53) + 2860 * u53) by ring.
+    assert (k * u53 * (k * u53) <= / 140737488355328 * (k * u53)) by (apply Rmult_le_compat_r; lra).
+    unfold X, u53 in *. nra.
+Qed.
+End BinRatioLog.
